@@ -105,6 +105,26 @@ pub fn run(cfg: &Cfg, rng: &mut Rng, out: &mut Out) {
             _ => one::<5>(&id, &ps, g, robust, &opts, api, rng, out),
         }
     }
+    // stratified sweep: every degenerate family meets every topology guarantee in D = 3..5 under
+    // the DEFAULT options (random sampling combines them too rarely)
+    let reps = if thorough { 6 } else { 1 };
+    for d in 3..=5usize {
+        for g in 0..3usize {
+            for fam in 5..12u64 {
+                for r in 0..reps {
+                    let np = sizes(d, rng, false);
+                    let ps = gens::point_set_fam(rng, d, np, fam);
+                    let o = Opts { order: 3, dedup: 0, simplex: 0, retry: 0 };
+                    let id = format!("w{d}_{g}_{fam}_{r}");
+                    match d {
+                        3 => one::<3>(&id, &ps, g, false, &o, 3, rng, out),
+                        4 => one::<4>(&id, &ps, g, false, &o, 3, rng, out),
+                        _ => one::<5>(&id, &ps, g, false, &o, 3, rng, out),
+                    }
+                }
+            }
+        }
+    }
     // unsuitable input: too few points, all duplicates, collinear-only
     for d in 2..=5usize {
         for (k, pts) in [
